@@ -2,6 +2,8 @@ package main
 
 import (
 	_ "embed"
+	"fmt"
+	"hash/fnv"
 	"sort"
 	"strings"
 
@@ -26,6 +28,8 @@ var theProg *Prog
 type newFnInfo struct {
 	any     int // 0 unknown, 1 some function is transparent, 2 none
 	ref     map[string]bool
+	renamed map[string]*ssa.Function // reference name -> the function that carries another name today
+	oldName map[*ssa.Function]string // the reverse
 	sites   map[*ssa.Function][]ssa.CallInstruction
 	escaped map[*ssa.Function]bool
 }
@@ -35,9 +39,61 @@ func (p *Prog) newFns() *newFnInfo {
 		return p.nf
 	}
 	nf := &newFnInfo{ref: map[string]bool{}, sites: map[*ssa.Function][]ssa.CallInstruction{}, escaped: map[*ssa.Function]bool{}}
+	refSig, refPrint := map[string]string{}, map[string]string{}
 	for _, l := range strings.Split(referenceFuncs, "\n") {
 		if l = strings.TrimSpace(l); l != "" && !strings.HasPrefix(l, "#") {
-			nf.ref[l] = true
+			name, rest, _ := strings.Cut(l, "\t")
+			sig, fp, _ := strings.Cut(rest, "\t")
+			nf.ref[name] = true
+			refSig[name] = sig
+			refPrint[name] = fp
+		}
+	}
+	// renames: a reference function that is gone and a new function with the same package, receiver and signature, one
+	// of each, are the same function under a new name (anchors and allow-tables keep working: Prog.Fn resolves the old name)
+	nf.renamed = map[string]*ssa.Function{}
+	nf.oldName = map[*ssa.Function]string{}
+	if len(nf.ref) > 0 {
+		present := map[string]bool{}
+		added := map[string][]*ssa.Function{}
+		for _, f := range p.Funcs {
+			if f.Parent() != nil || f.Synthetic != "" || isTestFile(p, f.Pos()) {
+				continue
+			}
+			n := fnNameRaw(origin(f))
+			present[n] = true
+			if !nf.ref[n] {
+				added[sigKey(f)] = append(added[sigKey(f)], origin(f))
+			}
+		}
+		gone := map[string][]string{}
+		for n, sig := range refSig {
+			if !present[n] && sig != "" {
+				gone[sig] = append(gone[sig], n)
+			}
+		}
+		for sig, olds := range gone {
+			news := added[sig]
+			if len(olds) == 1 && len(news) == 1 {
+				nf.renamed[olds[0]] = news[0]
+				nf.oldName[news[0]] = olds[0]
+				nf.ref[fnNameRaw(news[0])] = true // a renamed function is a known function, not a new helper
+				continue
+			}
+			// several siblings of one signature renamed together: pair them by the shape of their bodies
+			for _, o := range olds {
+				var match []*ssa.Function
+				for _, n := range news {
+					if refPrint[o] != "" && bodyPrint(n) == refPrint[o] {
+						match = append(match, n)
+					}
+				}
+				if len(match) == 1 {
+					nf.renamed[o] = match[0]
+					nf.oldName[match[0]] = o
+					nf.ref[fnNameRaw(match[0])] = true
+				}
+			}
 		}
 	}
 	for _, f := range p.Funcs {
@@ -101,7 +157,7 @@ func (p *Prog) transparentSite(f *ssa.Function) ssa.CallInstruction {
 		return nil
 	}
 	nf := p.newFns()
-	if len(nf.ref) == 0 || nf.ref[fnName(f)] || nf.escaped[f] {
+	if len(nf.ref) == 0 || nf.ref[fnNameRaw(f)] || nf.escaped[f] {
 		return nil
 	}
 	if s := nf.sites[f]; len(s) == 1 && rawEnclosing(s[0].Parent()) != f {
@@ -211,12 +267,61 @@ func rawEnclosing(f *ssa.Function) *ssa.Function {
 	return f
 }
 
+// sigKey: package, receiver type and signature of a function (what a pure rename leaves unchanged).
+func sigKey(f *ssa.Function) string {
+	f = origin(f)
+	pk := ""
+	if f.Pkg != nil {
+		pk = f.Pkg.Pkg.Path()
+	}
+	recv := ""
+	if r := f.Signature.Recv(); r != nil {
+		recv = r.Type().String()
+	}
+	return pk + "|" + recv + "|" + f.Signature.String()
+}
+
+// bodyPrint: a fingerprint of what a function does that ignores names of locals, positions and constants: the sequence
+// of instruction kinds with operators, field names and (for calls into other packages or methods) callee names.
+func bodyPrint(f *ssa.Function) string {
+	h := fnv.New64a()
+	for _, a := range f.AnonFuncs {
+		fmt.Fprint(h, bodyPrint(a)) // function literals are part of the body
+	}
+	for _, b := range f.Blocks {
+		for _, in := range b.Instrs {
+			fmt.Fprintf(h, "%T", in)
+			switch x := in.(type) {
+			case *ssa.BinOp:
+				fmt.Fprint(h, x.Op)
+			case *ssa.UnOp:
+				fmt.Fprint(h, x.Op)
+			case *ssa.FieldAddr, *ssa.Field:
+				if fv := fieldOfAddr(x.(ssa.Value)); fv != nil {
+					fmt.Fprint(h, fv.Name())
+				}
+			}
+			if cc := callCommon(in); cc != nil {
+				if cc.IsInvoke() {
+					fmt.Fprint(h, cc.Method.Name())
+				} else if sc := cc.StaticCallee(); sc != nil && !inCanopyRaw(sc) {
+					fmt.Fprint(h, sc.String())
+				} else if bi, ok := cc.Value.(*ssa.Builtin); ok {
+					fmt.Fprint(h, bi.Name())
+				}
+			}
+		}
+		fmt.Fprint(h, "|")
+	}
+	return fmt.Sprintf("%016x", h.Sum64())
+}
+
 // dumpFuncs lists the named non-test canopy functions (the reference list).
 func (p *Prog) dumpFuncs() []string {
 	var out []string
 	for _, f := range p.Funcs {
 		if f.Parent() == nil && f.Synthetic == "" && !isTestFile(p, f.Pos()) {
-			out = append(out, fnName(origin(f)))
+			out = append(out, fnNameRaw(origin(f))+"\t"+sigKey(f)+"\t"+bodyPrint(f))
 		}
 	}
 	sort.Strings(out)
